@@ -29,3 +29,16 @@ Example C17_nonvacuous :
   let t := mktempl true nil nil nil (cons (mkedge (Some g) nil) nil) in
   symbolic (check (mkdoc nil nil (cons t nil) false false)) = false /\ symbolic (check (mkdoc nil nil nil false false)) = true.
 Proof. vm_compute. split; reflexivity. Qed.
+
+(* ---- assignments at any depth of an update (UpdModel.v) ---- *)
+From Utap Require UpdModel.
+(* the traversal rules symbolic analysis out exactly when some assignment of the update, at whatever depth (chained, inside an operand, in a branch of a conditional,
+   in an element of a comma list), involves a floating-point value and has a target that is not a hybrid clock whichever way it is evaluated *)
+Theorem C17_nested_assignments : forall e, UpdModel.visit e = true <-> UpdModel.offending e.
+Proof. intro e. split; [apply UpdModel.visit_sound | apply UpdModel.visit_complete]. Qed.
+Print Assumptions C17_nested_assignments.
+(* looking at the top-level assignments of the comma list only (the code before repair a7f3c6f) misses h = (x = 1.5) *)
+Theorem C17_top_level_only_refuted : exists e, UpdModel.offending e /\ UpdModel.visit_top e = false.
+Proof. eexists. split; [exact (proj1 UpdModel.top_level_only_refuted) | exact (proj2 (proj2 UpdModel.top_level_only_refuted))]. Qed.
+Print Assumptions C17_top_level_only_refuted.
+
